@@ -428,14 +428,11 @@ theorem cellToBoundary_within (id : Nat) (closed : Bool) (segs : Option Nat) :
 
 /-! ### 6. `a5cell_contains_point` -/
 
-/-- **containment test on a record the decoder can produce (not the world record)**: a signed distance,
-`crsVertex` (projection) or `notCCW` (the winding assertion of `contains_point`); nothing else -/
-theorem cellContainsPoint_valid (c : Cell) (hv : c.Valid) (hr : c.res ≠ -1) (lon lat : Float) :
-    Benign (cellContainsPoint c lon lat) := by
-  have hF : Gen.FIRST_HILBERT_RESOLUTION = 2 := rfl
-  have ho := hv.origin_lt
-  have hrr := hv.res_range
-  obtain ⟨p, hp⟩ := getPentagon_valid c hv hr
+/-- containment test on ANY record whose origin is a face and for which `get_pentagon` returns a polygon
+(this covers the decoder's records and the estimates of `lonlat_to_cell`, whose unused fields are not
+normalised): a signed distance, `crsVertex` (projection) or `notCCW` (winding assertion); nothing else -/
+theorem cellContainsPoint_of_pentagon (c : Cell) (ho : c.origin < 12) (p : Poly) (hp : getPentagon c = .ok p)
+    (lon lat : Float) : Benign (cellContainsPoint c lon lat) := by
   unfold cellContainsPoint
   generalize fromLonLat lon lat = tp
   obtain ⟨theta, phi⟩ := tp
@@ -453,6 +450,38 @@ theorem cellContainsPoint_valid (c : Cell) (hv : c.Valid) (hr : c.res ≠ -1) (l
       simp only [Outcome.bind_ok]
       exact polyContains_benign p pp
 
+/-- if `get_pentagon` panics on the record, so does the containment test (unless the projection failed first) -/
+theorem cellContainsPoint_of_pentagon_panic (c : Cell) (ho : c.origin < 12) (k : PanicKind)
+    (hp : getPentagon c = .panic k) (lon lat : Float) :
+    cellContainsPoint c lon lat = .err .crsVertex ∨ cellContainsPoint c lon lat = .panic k := by
+  have hF : Gen.FIRST_HILBERT_RESOLUTION = 2 := rfl
+  have hnot : ¬ (c.res = 0 ∨ c.res = 1) := by
+    intro h01
+    have : (getPentagon c).isOk = true :=
+      (getPentagon_isOk_iff c).2 ⟨ho, h01.elim Or.inl (fun h => Or.inr (Or.inl h))⟩
+    rewrite [hp] at this
+    cases this
+  unfold cellContainsPoint
+  generalize fromLonLat lon lat = tp
+  obtain ⟨theta, phi⟩ := tp
+  dsimp only
+  rcases (dodecaForward_okOrCrs theta phi c.origin ho).cases with h | ⟨pp, h⟩
+  · rewrite [h]; exact Or.inl rfl
+  · rewrite [h]
+    simp only [Outcome.bind_ok]
+    rewrite [if_neg (by rewrite [origins_length]; omega)]
+    generalize segmentToQuintant c.segment (originAt c.origin) = qo
+    obtain ⟨q, o⟩ := qo
+    dsimp only
+    rewrite [if_neg (by omega), if_neg (by omega), hp]
+    exact Or.inr rfl
+
+/-- **containment test on a record the decoder can produce (not the world record)** -/
+theorem cellContainsPoint_valid (c : Cell) (hv : c.Valid) (hr : c.res ≠ -1) (lon lat : Float) :
+    Benign (cellContainsPoint c lon lat) := by
+  obtain ⟨p, hp⟩ := getPentagon_valid c hv hr
+  exact cellContainsPoint_of_pentagon c hv.origin_lt p hp lon lat
+
 /-- an origin id that is not a face is rejected by the projection before any table is indexed -/
 theorem cellContainsPoint_bad_origin (c : Cell) (ho : 12 ≤ c.origin) (lon lat : Float) :
     cellContainsPoint c lon lat = .err .invalidOrigin := by
@@ -468,22 +497,8 @@ theorem cellContainsPoint_bad_origin (c : Cell) (ho : 12 ≤ c.origin) (lon lat 
 `a5cell_contains_point` does not return normally unless the projection already failed: it reaches
 `get_pentagon` with curve depth `-2 as usize`. -/
 theorem cellContainsPoint_negative_res (c : Cell) (ho : c.origin < 12) (hr : c.res < 0) (lon lat : Float) :
-    cellContainsPoint c lon lat = .err .crsVertex ∨ cellContainsPoint c lon lat = .panic .fuel := by
-  have hF : Gen.FIRST_HILBERT_RESOLUTION = 2 := rfl
-  unfold cellContainsPoint
-  generalize fromLonLat lon lat = tp
-  obtain ⟨theta, phi⟩ := tp
-  dsimp only
-  rcases (dodecaForward_okOrCrs theta phi c.origin ho).cases with h | ⟨pp, h⟩
-  · rewrite [h]; exact Or.inl rfl
-  · rewrite [h]
-    simp only [Outcome.bind_ok]
-    rewrite [if_neg (by rewrite [origins_length]; omega)]
-    generalize segmentToQuintant c.segment (originAt c.origin) = qo
-    obtain ⟨q, o⟩ := qo
-    dsimp only
-    rewrite [if_neg (by omega), if_neg (by omega), getPentagon_negative_res c ho hr]
-    exact Or.inr rfl
+    cellContainsPoint c lon lat = .err .crsVertex ∨ cellContainsPoint c lon lat = .panic .fuel :=
+  cellContainsPoint_of_pentagon_panic c ho .fuel (getPentagon_negative_res c ho hr) lon lat
 
 /-! ### 7. `cell_area` -/
 
@@ -536,29 +551,41 @@ theorem cellToBoundary_outcomes (id : Nat) (closed : Bool) (segs : Option Nat) :
   · subst he; exact Or.inr (Or.inr (Or.inl h))
   · subst hk; exact Or.inr (Or.inr (Or.inr h))
 
-/-- **3. `a5cell_contains_point`** on every record and every point.  The record type is public, so all
-four situations are reachable by a caller; only the first one is reachable from the library's own
-`lonlat_to_cell` (its estimates are valid records of resolution ≥ 0). -/
+/-- **3. `a5cell_contains_point`** on EVERY record and every point - an exhaustive classification
+(`get_pentagon` never returns `Err`: `getPentagon_not_err`).  The record type is public, so all situations
+are reachable by a caller; the library's own `lonlat_to_cell` only reaches the second one. -/
 theorem cellContainsPoint_outcomes (c : Cell) (lon lat : Float) :
+    (12 ≤ c.origin → cellContainsPoint c lon lat = .err .invalidOrigin) ∧
+    (c.origin < 12 → ∀ p, getPentagon c = .ok p →
+      (∃ d, cellContainsPoint c lon lat = .ok d) ∨ cellContainsPoint c lon lat = .err .crsVertex ∨
+        cellContainsPoint c lon lat = .panic .notCCW) ∧
+    (c.origin < 12 → ∀ k, getPentagon c = .panic k →
+      cellContainsPoint c lon lat = .err .crsVertex ∨ cellContainsPoint c lon lat = .panic k) ∧
     (c.Valid → c.res ≠ -1 →
       (∃ d, cellContainsPoint c lon lat = .ok d) ∨ cellContainsPoint c lon lat = .err .crsVertex ∨
         cellContainsPoint c lon lat = .panic .notCCW) ∧
-    (12 ≤ c.origin → cellContainsPoint c lon lat = .err .invalidOrigin) ∧
     (c.origin < 12 → c.res < 0 →
       cellContainsPoint c lon lat = .err .crsVertex ∨ cellContainsPoint c lon lat = .panic .fuel) := by
-  refine ⟨fun hv hr => ?_, fun ho => cellContainsPoint_bad_origin c ho lon lat,
+  have key : ∀ (ho : c.origin < 12) (p : Poly), getPentagon c = .ok p →
+      (∃ d, cellContainsPoint c lon lat = .ok d) ∨ cellContainsPoint c lon lat = .err .crsVertex ∨
+        cellContainsPoint c lon lat = .panic .notCCW := by
+    intro ho p hp
+    rcases (cellContainsPoint_of_pentagon c ho p hp lon lat).elim with h | ⟨e, h, he⟩ | ⟨k, h, hk⟩
+    · exact Or.inl h
+    · subst he; exact Or.inr (Or.inl h)
+    · subst hk; exact Or.inr (Or.inr h)
+  refine ⟨fun ho => cellContainsPoint_bad_origin c ho lon lat, key,
+    fun ho k hp => cellContainsPoint_of_pentagon_panic c ho k hp lon lat, fun hv hr => ?_,
     fun ho hr => cellContainsPoint_negative_res c ho hr lon lat⟩
-  rcases (cellContainsPoint_valid c hv hr lon lat).elim with h | ⟨e, h, he⟩ | ⟨k, h, hk⟩
-  · exact Or.inl h
-  · subst he; exact Or.inr (Or.inl h)
-  · subst hk; exact Or.inr (Or.inr h)
+  obtain ⟨p, hp⟩ := getPentagon_valid c hv hr
+  exact key hv.origin_lt p hp
 
 /-- the same for an id: decode, then test -/
 theorem cellContainsPoint_id_outcomes (id : Nat) (c : Cell) (hd : deserialize id = .ok c) (hr : getResolution id ≠ -1)
     (lon lat : Float) :
     (∃ d, cellContainsPoint c lon lat = .ok d) ∨ cellContainsPoint c lon lat = .err .crsVertex ∨
       cellContainsPoint c lon lat = .panic .notCCW :=
-  (cellContainsPoint_outcomes c lon lat).1 (deserialize_ok_valid' id c hd)
+  (cellContainsPoint_outcomes c lon lat).2.2.2.1 (deserialize_ok_valid' id c hd)
     (by rewrite [deserialize_res id c hd]; exact hr)
 
 /-! ### 9. conditional success: the float-dependent events, and nothing else, stand between a
@@ -650,7 +677,7 @@ theorem cellToBoundary_ok_of_no_event (id : Nat) (closed : Bool) (segs : Option 
 theorem cellContainsPoint_ok_of_no_event (c : Cell) (hv : c.Valid) (hr : c.res ≠ -1) (lon lat : Float)
     (hcrs : cellContainsPoint c lon lat ≠ .err .crsVertex) (hccw : cellContainsPoint c lon lat ≠ .panic .notCCW) :
     ∃ d, cellContainsPoint c lon lat = .ok d := by
-  rcases (cellContainsPoint_outcomes c lon lat).1 hv hr with h | h | h
+  rcases (cellContainsPoint_outcomes c lon lat).2.2.2.1 hv hr with h | h | h
   · exact h
   · exact absurd h hcrs
   · exact absurd h hccw
